@@ -3,7 +3,7 @@
    (|a-b| <= atol + rtol(|a|+|b|)).  `failing` returns 2*id for a disagreement and 2*id+1 for a case the model
    flags as ill-conditioned (a numerator that is a cancelling sum next to the clipping threshold): skipped, counted. *)
 From Coq Require Import List Arith ZArith QArith Qabs Qround Bool.
-From TLV Require Import Base.Shape Base.PyList Base.Tensor Base.Ops Model.Nonneg Model.NonnegSign Model.NonnegFlow Model.NonnegOptions Corr.Common.
+From TLV Require Import Base.Shape Base.PyList Base.Tensor Base.Ops Model.Nonneg Model.NonnegSign Model.NonnegFlow Model.NonnegOptions Model.NonnegP2Ls Model.NonnegCcpSpec Corr.Common.
 Import ListNotations.
 
 Definition qmat := list (list Q).
@@ -123,6 +123,14 @@ Definition ccp_fx (T : tensor Q) (Fs : list qmat) (nn modes : list nat) (n inner
   let r := constrained_parafac Fxops nn (fun _ M => M) (fun _ => ccp_split Fxops (gsolve_mat Fxops) T' R) (fun _ _ _ => inner)
              (fun _ _ => false) modes n (Fs', Ds) in
   map m2q (fst r).
+(* round 7: the same runs through the entry function of Model/NonnegCcpSpec.v with the RAW non_negative argument (True / list of booleans / dictionary with
+   possibly negative keys and False values), raw fixed_modes and user weights (pulled into the last factor) *)
+Definition ccp_entry_fx (T : tensor Q) (w : list Q) (Fs : list qmat) (spec : nn_spec) (fixed : option (list nat)) (n inner : nat) : list qmat :=
+  let T' := t2fx T in let Fs' := map m2fx Fs in
+  let R := ncols (hd [] Fs') in
+  let r := constrained_parafac_entry Fxops (fun _ M => M) (fun _ => ccp_split Fxops (gsolve_mat Fxops) T' R) (fun _ _ _ => inner)
+             (fun _ _ => false) (length Fs) spec fixed n (map q2fx w) Fs' in
+  map m2q (fst r).
 (* one PARAFAC2 outer iteration on the projected tensor T' (projections = SVD oracle, recorded): weights into factor 1, inner HALS-CP with
    n_iter_parafac sweeps from the user start, no line search, normalisation of the start and of the iterate when requested; every mode declared (no LAPACK solve is reached) *)
 Definition p2iter_fx (T : tensor Q) (w : list Q) (Fs : list qmat) (nip : nat) (nm : bool) (tol : Q) : list Q * list qmat :=
@@ -160,6 +168,18 @@ Definition p2run_fx (Ts : list (tensor Q)) (w : list Q) (Fs : list qmat) (nip : 
   let T0 := hd (mk (@nil nat) (@nil Z)) Ts' in
   let r := parafac2 Fxops fxnrm2 (fun it _ => cp_hals_utm Fxops (nth it Ts' T0)) (fun _ _ => cp_hals_utu Fxops) (fun _ M => M)
              (fun it _ => cp_hals_inner Fxops (nth it Ts' T0) (repeat None 3) (q2fx tol)) (fun _ _ _ => false) [0; 1; 2]%nat nip
+             (fun it => match nth it lines None with Some j => Some (q2fx j) | None => None end) (fun it _ => nth it accepts false)
+             nm (fun _ _ => false) (length Ts) (map q2fx w, map m2fx Fs) in
+  (map fx2q (fst r), map m2q (snd r)).
+
+(* round 7: the same complete runs for ANY nn_modes list (the undeclared modes are solved by elimination inside Coq: gsolve_mat) and for a
+   USER-SUPPLIED line-search object that clips on its own nn_modes ls_nn (Model/NonnegP2Ls.v) *)
+Definition p2run_g_fx (Ts : list (tensor Q)) (w : list Q) (Fs : list qmat) (nn ls_nn : list nat) (nip : nat) (nm : bool) (tol : Q)
+           (lines : list (option Q)) (accepts : list bool) : list Q * list qmat :=
+  let Ts' := map t2fx Ts in
+  let T0 := hd (mk (@nil nat) (@nil Z)) Ts' in
+  let r := parafac2_ls Fxops fxnrm2 (fun it _ => cp_hals_utm Fxops (nth it Ts' T0)) (fun _ _ => cp_hals_utu Fxops) (gsolve_mat Fxops)
+             (fun it _ => cp_hals_inner Fxops (nth it Ts' T0) (repeat None 3) (q2fx tol)) (fun _ _ _ => false) nn ls_nn nip
              (fun it => match nth it lines None with Some j => Some (q2fx j) | None => None end) (fun it _ => nth it accepts false)
              nm (fun _ _ => false) (length Ts) (map q2fx w, map m2fx Fs) in
   (map fx2q (fst r), map m2q (snd r)).
@@ -203,10 +223,14 @@ Inductive op :=
 | OInitP2 (nn : list nat) (raw : list qmat) (nm : bool)
 (* constrained_parafac(non_negative=nn, init=(ones, Fs), n_iter_max=n, n_iter_max_inner=inner, tol_outer=0, tol_inner=0, fixed_modes) *)
 | OCcp (T : tensor Q) (Fs : list qmat) (nn modes : list nat) (n inner : nat)
+(* constrained_parafac(non_negative=<raw spec>, init=(w, Fs), fixed_modes=<raw>, n_iter_max=n, n_iter_max_inner=inner, tol_outer=0, tol_inner=0) *)
+| OCcpE (T : tensor Q) (w : list Q) (Fs : list qmat) (spec : nn_spec) (fixed : option (list nat)) (n inner : nat)
 (* parafac2(slices, init=(w, Fs, projections), n_iter_max=1, nn_modes='all', linesearch=False, n_iter_parafac=nip): T = recorded projected tensor *)
 | OP2Iter (T : tensor Q) (w : list Q) (Fs : list qmat) (nip : nat) (nm : bool) (tol : Q)
 (* parafac2(slices, init=(w, Fs, projections), n_iter_max=length Ts, nn_modes='all', linesearch=True|False, tol=0): complete runs of several outer iterations *)
 | OP2Run (Ts : list (tensor Q)) (w : list Q) (Fs : list qmat) (nip : nat) (nm : bool) (tol : Q) (lines : list (option Q)) (accepts : list bool)
+(* parafac2(slices, init=(w, Fs, projections), nn_modes=nn (any list), linesearch=True | False | a _BroThesisLineSearch instance with nn_modes=ls_nn, tol=0) *)
+| OP2RunG (Ts : list (tensor Q)) (w : list Q) (Fs : list qmat) (nn ls_nn : list nat) (nip : nat) (nm : bool) (tol : Q) (lines : list (option Q)) (accepts : list bool)
 (* _BroThesisLineSearch.line_step extrapolation + clipping *)
 | OLine (nn : list nat) (jump : Q) (last cur : list qmat)
 (* the same three entry points called with RAW options (fixed_modes incl. None and the last mode, nn_modes 'all' / None / list, sparsity None / scalar / list):
@@ -281,6 +305,7 @@ Definition run (o : op) : out :=
   | OInitP2 nn raw nm =>
       let r := cp_fin Qops qnrm2 nm (repeat 1%Q (ncols (hd [] raw)), initialize_parafac2_nn Qops nn raw) in OutMats (fst r) (snd r)
   | OCcp T Fs nn modes n inner => OutMats [] (ccp_fx T Fs nn modes n inner)
+  | OCcpE T w Fs spec fixed n inner => OutMats [] (ccp_entry_fx T w Fs spec fixed n inner)
   | OP2Iter T w Fs nip nm tol =>
       let a := p2iter_fx T w Fs nip nm (tol * (999999 # 1000000)) in
       let b := p2iter_fx T w Fs nip nm (tol * (1000001 # 1000000)) in
@@ -288,6 +313,10 @@ Definition run (o : op) : out :=
   | OP2Run Ts w Fs nip nm tol lines accepts =>
       let a := p2run_fx Ts w Fs nip nm (tol * (999999 # 1000000)) lines accepts in
       let b := p2run_fx Ts w Fs nip nm (tol * (1000001 # 1000000)) lines accepts in
+      if pair_close a b then OutMats (fst a) (snd a) else OutSkip
+  | OP2RunG Ts w Fs nn ls_nn nip nm tol lines accepts =>
+      let a := p2run_g_fx Ts w Fs nn ls_nn nip nm (tol * (999999 # 1000000)) lines accepts in
+      let b := p2run_g_fx Ts w Fs nn ls_nn nip nm (tol * (1000001 # 1000000)) lines accepts in
       if pair_close a b then OutMats (fst a) (snd a) else OutSkip
   | OLine nn jump last cur => OutMats [] (line_step Qops nn jump last cur)
   | OMuCpE eps T w Fs nm fixed n =>
